@@ -835,6 +835,18 @@ def rule_r10(chk, p, t):
         r.error("classes", f"only {n} classes examined")
 
 
+def rule_r11(chk, p, t):
+    from rules.shared_fresh import rule_factories_fresh
+
+    rule_factories_fresh(
+        chk, p, t, "C10.R11", "every agent gets a dynamics object of its own",
+        "a dynamics object carries per-agent state (armed thrust, station-keeping events, the start epoch): truth "
+        "trajectories depend only on the agent's own dynamics settings and initial state.",
+        ["resonaate.dynamics.dynamicsFactory"],
+        "two agents with equal dynamics settings would share one object: a burn armed for one acts on the other",
+    )
+
+
 def run(chk, p, t):
     chk.explanation = (
         "Static non-interference analysis for C10: (R1) an enumerated, closed set of writers of truth state and of "
@@ -847,7 +859,7 @@ def run(chk, p, t):
         "splitting keep no state. NOT decided: bit-for-bit determinism of SciPy and of Ray serialisation."
     )
     chk.assumptions += ["ray.put / ray.get are a deep-copy boundary", "dynamicsFactory returns a fresh object per call (no caching; checked: it constructs TwoBody / SpecialPerturbations / Terrestrial)"]
-    steps = [("C10.R1", rule_r1), ("C10.R2", rule_r2), ("C10.R3", rule_r3), ("C10.R4", rule_r4_r5), ("C10.R6", rule_r6), ("C10.R7", rule_r7), ("C10.R8", rule_r8), ("C10.R9", rule_r9), ("C10.R10", rule_r10)]
+    steps = [("C10.R1", rule_r1), ("C10.R2", rule_r2), ("C10.R3", rule_r3), ("C10.R4", rule_r4_r5), ("C10.R6", rule_r6), ("C10.R7", rule_r7), ("C10.R8", rule_r8), ("C10.R9", rule_r9), ("C10.R10", rule_r10), ("C10.R11", rule_r11)]
     for rid, fn in steps:
         if chk.only_rule is not None and chk.only_rule != rid and not (chk.only_rule == "C10.R5" and rid == "C10.R4"):
             continue
